@@ -203,7 +203,7 @@ func c30Exec(t *testing.T, sc *gen.Scenario, trace bool) *harness.Outcome {
 					simrt.Probe("error_under_fault")
 					continue
 				}
-				e.Violate("unexpected_error", "err="+errSig(err), "expand(%s#%s): %v", rq.Obj, rq.Rel, err)
+				e.Violate("unexpected_error:"+errKind(err), "err="+errSig(err), "expand(%s#%s): %v", rq.Obj, rq.Rel, err)
 				return
 			}
 			want := RefExpand(stateFor(sc, rq), rq.Obj, rq.Rel)
